@@ -53,6 +53,10 @@ func c22CheckG(st *c22Stack, m *c22Model, q *c22Query) (class, detail string, ex
 		return "", "", exp, nil
 	}
 	got, err = st.c22Run(q.String())
+	if err == errC22Watchdog {
+		exp.Ambiguous = "watchdog"
+		return "", "", exp, nil
+	}
 	if err != nil {
 		return "error", err.Error(), exp, nil
 	}
@@ -245,10 +249,11 @@ func c22MinimiseData(q *c22Query, specs []c22ShardSpec, class string, budget int
 	}
 	cur := specs
 	chunk := len(flat(cur)) / 2
-	for chunk >= 1 && budget > 0 {
+	fired := c22WatchdogFired
+	for chunk >= 1 && budget > 0 && c22WatchdogFired == fired {
 		refs := flat(cur)
 		progressed := false
-		for start := 0; start < len(refs) && budget > 0; start += chunk {
+		for start := 0; start < len(refs) && budget > 0 && c22WatchdogFired == fired; start += chunk {
 			drop := map[ref]bool{}
 			for k := start; k < start+chunk && k < len(refs); k++ {
 				drop[refs[k]] = true
@@ -365,7 +370,7 @@ func c22Report(r *vkit.Run, st *c22Stack, ds *c22Dataset, q *c22Query, dsNo, qNo
 		mq = c22MinimiseQuery(st, ds.Model, q, class)
 		w.MinQuery = mq.String()
 		w.Shards = c22WitSpecs(ds.Specs)
-		if c22MinCount[class] < 1 {
+		if c22MinCount[class] < 1 && c22WatchdogFired == 0 {
 			c22MinCount[class]++
 			ms := c22MinimiseData(mq, ds.Specs, class, 60)
 			w.Shards = c22WitSpecs(ms)
@@ -461,6 +466,10 @@ func TestC22(t *testing.T) {
 		"subqueries, math on columns, selectors with auxiliary fields, INTO, time zone clause",
 	}
 	for di := 0; di < nDS; di++ {
+		if c22WatchdogFired >= 3 {
+			r.Inconclusive("gave up after 3 statements hung inside the engine")
+			break
+		}
 		rg := r.Rand(di)
 		ds := c22GenDataset(rg, c22DSOpts{})
 		dir, err := os.MkdirTemp("", "c22")
@@ -486,6 +495,10 @@ func TestC22(t *testing.T) {
 				q = c22GenAgg(qr, ds)
 			}
 			class, detail, exp := c22Check(st, ds.Model, q)
+			if exp.Ambiguous == "watchdog" {
+				r.Inconclusive("query watchdog fired: " + q.String())
+				break
+			}
 			if exp.Ambiguous != "" {
 				r.Event("skipped_ambiguous", 1)
 				continue
@@ -511,5 +524,10 @@ func TestC22(t *testing.T) {
 		st.Close()
 	}
 	r.Extra("excluded", excluded)
+	if c22WatchdogFired >= 3 {
+		// most of the budget was not evaluated: never report that as "held"
+		fmt.Printf("INCONCLUSIVE property=C22 gave up after %d statements hung inside the engine (see evidence.inconclusive)\n", c22WatchdogFired)
+		defer t.Fatalf("INCONCLUSIVE")
+	}
 	r.Extra("seconds_spent_minimising_and_classifying_violations", reportDur.Seconds())
 }
